@@ -31,6 +31,12 @@ CHECKS = {
     "C27": ("coop-component", "exploration",
             "Classification: the complete 256x256x6 (first byte, second byte, length class) grid is enumerated against the RFC 7983 table on every run. Delivery order: seeded search over interleavings of datagram arrival (simulated net.Conn) with NewEndpoint calls on the real mux under the cooperative scheduler; oracle = each datagram at most one endpoint, the right one, per-endpoint read order = arrival order, nothing lost below the queue cap.",
             COOP_NOTE + " At most 10 datagrams per run (queue cap 15 is not part of the property). Length 2-3 RTCP-looking datagrams may classify as SRTP or SRTCP.", TECH_COOP + "; exhaustive enumeration for the classification grid", "§6 C27"),
+    "C29": ("coop-component", "exploration",
+            "Seeded search over concurrent and sequential bind/unbind/write histories on the real TrackLocalStaticRTP; the cooperative scheduler preempts at every lock site and inside every binding's writer (so a fan-out can be interrupted), some writers fail. Oracle: rewrite rule per delivery (binding's SSRC/PT, everything else equal), at most one delivery per binding per write, nothing delivered after Unbind returned, the caller's packets and buffers deep-equal at the end of the history, and the (op, recipients) history linearizable against a set-of-bindings model (porcupine).",
+            COOP_NOTE + " Binding writers are recorders, not SRTP streams. Histories <= 26 ops go to porcupine with a 20 s cap; Unknown is never reported.", TECH_COOP + "; porcupine linearizability check", "§6 C29"),
+    "C22": ("coop-component", "exploration",
+            "Aggregate: all 70 (closed, ICE, DTLS) combinations are enumerated against a table transcribed from the W3C text on every run. Notifications and staleness: seeded search over interleavings of ICE state changes (through the real internal ICE handler), DTLS state changes followed by the update statement copied from startTransports at build time, and a real Close(), on a real never-connected PeerConnection; a sampler reads the stored state at every scheduling step. Oracle: handler invocations equal observed changes as multisets, and at quiescence the stored state is the aggregate of the current inputs.",
+            COOP_NOTE + " Transports are never started; state changes are injected through the handler/setter the real transports use. The partition-driven whole-connection variant (DESIGN §6 C22 iii) is not part of this check.", TECH_COOP + "; exhaustive enumeration of the 70-entry aggregate table", "§6 C22"),
     "C24": ("pcsim", "exploration",
             "Seeded search over interleavings of a real ice.Agent's candidate callbacks (its notifier goroutine is adopted as a scheduler task) with CreateOffer/SetLocalDescription's candidate-pool flush on a real PeerConnection, scheduling points at every lock/atomic site of icegatherer.go; 1-3 host candidates, pool size 0/1, handler registered early/late, optional renegotiation. Oracle: every gathered candidate reported once, nil exactly once, nothing after nil.",
             COOP_NOTE + " Only host/UDP4 candidates (simulated network has no STUN/TURN). The ice.Agent runs free between gatherer sites.", TECH_COOP + " (focus-coop on icegatherer.go inside a whole-PeerConnection simulation)", "§6 C24"),
